@@ -11,7 +11,7 @@ import consts
 import ref
 import spaces
 from core import PY, PYS, HorizonHit, Monitor, exc_summary, horizon
-from strict import code_key, digest64, short, skey
+from strict import code_key, digest64, short, skey, walk_codes
 
 import code_data as cd_mod
 from code_data import (
@@ -450,8 +450,29 @@ class C08(Monitor):
         stats.sample("PR", {"program": progs[i]["src"], "routes": [r for r, v, k in V[i]]}, per=1)
         if V[i] and case.get("j") is None:
             self.dump_pickles(i, progs[i], V[i])
+        # every code object of the program decoded on its own is a hashable value (a
+        # parent that hashes its children while being decoded would hide this behind a
+        # from_code failure, which is other properties' business)
+        try:
+            root = spaces.build_code(progs[i])
+        except SyntaxError:
+            root = None
+        if root is not None:
+            for path, cc in walk_codes(root):
+                try:
+                    dd = CodeData.from_code(cc)
+                except Exception:
+                    stats.skipped["nested-decode-fails"] += 1
+                    continue
+                stats.evaluations += 1
+                try:
+                    hash(dd)
+                    hash(dd.normalize())
+                except TypeError as e:
+                    stats.violation(dict(case, cpath=list(path)), "unhashable:" + type(e).__name__, "decoded code object %s of the program: %s" % (list(path), exc_summary(e)))
+                    return
         if not V[i]:
-            stats.skipped["not-compilable"] += 1
+            stats.skipped["not-compilable" if root is None else "decode-fails"] += 1
             return
         codes = {}
         for (ri, x, kx) in V[i]:
